@@ -8,6 +8,7 @@ import AuthModel.Gen
 import AuthModel.Secret
 import AuthModel.Config
 import AuthModel.Tls
+import AuthModel.Factory
 open AuthModel AuthModel.Wire
 
 def parseMatch (t : Tok) : Option StringMatch :=
@@ -509,6 +510,21 @@ def handle (d : DState) (toks : List Tok) : DState × String :=
   | ['s','e','c','r','e','t'] :: rest => handleSecret d rest
   | ['c','o','n','f'] :: rest => handleConf d rest
   | ['t','l','s'] :: rest => handleTls d rest
+  | [['f','a','c','t','o','r','y'], filters] =>
+    let fs : Option (List Factory.FilterStore) := (splitList ',' filters).mapM fun t =>
+      match splitC ':' t with
+      | [u, a, i] => do pure { redisUri := (← unhex u), abs := (← natOf a), idle := (← natOf i) }
+      | _ => none
+    (d, match fs with
+      | some fs =>
+        let b := Factory.preRun fs { memory := none, redis := [] }
+        let ids := fs.map (Factory.get b)
+        let classOf (i : Nat) : Nat := match (List.range i).find? (fun j => ids.getD j .memory == ids.getD i .memory) with
+          | some j => j
+          | none => i
+        -- class of i = class of the first earlier filter with the same store (transitively the smallest index)
+        String.intercalate "," ((List.range fs.length).map fun i => toString (classOf i))
+      | none => "bad-op")
   | ['r','e','q'] :: rest => handleReq d rest
   | ['s','p','a','w','n'] :: rest => handleSpawn d rest
   | [['s','t','e','p'], tid] =>
